@@ -18,6 +18,7 @@ CFG = {
         "Leptos.Store.C16_run_subscribes",
         "Leptos.Store.C16_sees_written_value",
         "Leptos.Store.C16_map_reader_subscribes",
+        "Leptos.Store.C16_trigger_map_unique",
         "Leptos.Store.C16_segment_collision_machine_regression",
         "Leptos.Store.C16_index_write_wakes_cousin_witness",
         "Leptos.Store.C16_keyed_field_misses_root_witness",
@@ -32,6 +33,9 @@ CFG = {
         "Leptos.Store.C16_erasure_transparent_set",
         "Leptos.Store.C16_erasure_transparent_patch",
         "Leptos.Store.C16_erasure_transparent_reader",
+        "Leptos.Store.C16_handle_transparent",
+        "Leptos.Store.C16_handle_transparent_plain",
+        "Leptos.Store.C16_hnew_plain",
         "Leptos.Store.C16_root_handle_write_misses_descendants_witness",
         "Leptos.Store.C16_enum_variant_fields_share_segment_witness",
         "Leptos.Store.C16_patch_after_skipped_field_witness",
@@ -46,14 +50,16 @@ CFG = {
         "Leptos.Store.get_set_prefix",
         "Leptos.Store.get_set_unrelated",
         "Leptos.Store.walk_plainChain",
+        "Leptos.Store.walkH_plain",
         "Leptos.Store.runEff_plain",
         "Leptos.Store.notifyAll_noImm",
         "Leptos.Store.writeVia_fldIdx",
         "Leptos.Store.trackAndRead_subs",
+        "Leptos.Store.subsSet_keys",
     ],
     "harness_pkg": "hx-c16",
     "harness_bin": "c16",
-    "n": {"quick": 8000, "thorough": 300000},
+    "n": {"quick": 9000, "thorough": 300000},
     "exhaustive": {"quick": False, "thorough": False},
     "trivial_tags": ["plain"],
     "rule": "a case is one history on one real Store<Root> of the fixed #[derive(Store, Patch)] family (nested structs to depth 3, "
@@ -61,11 +67,11 @@ CFG = {
             "custom #[patch] closure; shapes with attributes: #[store(skip)] first / in the middle / last, a tuple struct, an enum with a struct-like, a tuple and a unit variant). Readers are Effects on the controlled executor or ImmediateEffects (wake order), and read in every "
             "public way: .get / .read / .with / .track+read_untracked, OptionStoreExt::map / invert / unwrap, Field and ArcField handles "
             "(the accessor erased at any position of the chain when the reader is created), DerefedField, AtIndex, AtKeyed, iteration "
-            "(for over a keyed field, iter_unkeyed) reading every item, enum variant_field() accessors (held, or called inside the reader). Ops: .set/.update/.write() and patch, each also through a Field / ArcField handle made of the accessor at any position of the chain, keyed push/remove/swap/reverse, "
+            "(for over a keyed field, iter_unkeyed) reading every item, enum variant_field() accessors (held, or called inside the reader). Ops: .set/.update/.write() and patch, each also through a Field / ArcField handle made of the accessor at any position of the chain (made for that operation, or long-lived: `hnew`, then chains starting with h<id>), keyed push/remove/swap/reverse, "
             "poll/idle. Generated: every (write chain, read chain) pair of the family's chains with a random way of reading (all pairs when "
             "n >= 2*pairs, else a seeded sample of n/2), then seeded histories in six flavours (plain fields; keyed starting with <=1 key; "
             "keyed starting with >=2 keys; unkeyed list; mixed; option cycles: both Option fields go Some->None->Some through set and patch "
-            "at every ancestor level under every reader kind; attribute shapes: every field of one shape watched, patches at the shape / its parent / the root that change one or two fields). Observable per op: the woken effect ids and the run log (reader id : value "
+            "at every ancestor level under every reader kind; attribute shapes: every field of one shape watched, patches at the shape / its parent / the root that change one or two fields; long-lived handles: handles of plain fields, list elements and keyed items used while the keyed collections are reordered and grow) and two `race` cases (k OS threads doing the first tracked access to fresh paths together, then a write: every memo must recompute). Observable per op: the woken effect ids and the run log (reader id : value "
             "seen). distinct = distinct op list; every case writes at least once",
     "trusted": [
         "reactive_graph Effect / ImmediateEffect / ArcTrigger (modelled: ordered SubscriberSet taken on notify, woken flag, run = clear sources + retrack)",
@@ -77,8 +83,9 @@ CFG = {
                  "AtIndex::{writer,track}", "KeyedSubfield::{writer,track_field,update_keys,into_iter}", "KeyedSubfieldWriteGuard::drop",
                  "AtKeyed::{path,reader,writer}", "FieldKeys::{new,update,next_key}", "KeyMap::with_field_keys",
                  "Patch::patch / PatchField for primitives, Option, Vec and #[derive(Patch)] structs", "OptionStoreExt::unwrap"],
-    "assumptions": ["handles are created at the operation that uses them (a long-lived handle of a keyed item, whose path is frozen at creation, is not exercised); the bool variant accessors of enums and KeyedSubfield -> Field (no From impl) are not exercised",
-                    "single thread; no nested keyed collections; key function = first field of the item"],
+    "assumptions": ["handles of keyed items are used only while their key stays in the collection (afterwards their frozen path is stale: outside 'keeps following that item'); KeyedSubfield has no From impl into Field / ArcField, so a keyed field cannot be erased itself (items and everything around it can); the bool variant accessors of enums are not exercised",
+                    "thread interleavings are outside the property's quantifier (effect schedules); the one-trigger-per-path invariant of TriggerMap that everything rests on is by construction in the model (a trigger is its path, C16_trigger_map_unique) and stress-tested on the real code by the bounded `race` op, which cannot fail on correct code but may miss a race on a loaded or single-core machine",
+                    "single thread otherwise; no nested keyed collections; key function = first field of the item"],
     "manifest": {
         "category": "proof",
         "text": "Lean 4 theorems over all paths of unbounded depth (struct fields, Option, indexed and keyed fields): a write "
